@@ -79,6 +79,101 @@ theorem BigE.node_reads {P : Prog} {σ : Srcs} {m : Maps} {e : Expr} {a v : Nat}
     · exact List.mem_append_right _ (ihe q w h1)
   | half hx ih => exact ih
 
+/-! ## the recorded dependency list, in order -/
+
+/-- `TrackedDependencies::push` on the list of nodes, oldest first -/
+def pushNode (l : List DepNode) (n : DepNode) : List DepNode :=
+  if l.getLast? = some n then l else l ++ [n]
+
+def pushAll (l : List DepNode) (ks : List DepNode) : List DepNode := ks.foldl pushNode l
+
+theorem pushAll_append (l a b : List DepNode) : pushAll l (a ++ b) = pushAll (pushAll l a) b := by
+  simp [pushAll, List.foldl_append]
+
+theorem pushAll_snoc (l ks : List DepNode) (k : DepNode) : pushAll l (ks ++ [k]) = pushNode (pushAll l ks) k := by
+  simp [pushAll, List.foldl_append]
+
+/-- `pushDep` on the reversed list is `pushNode` on the list -/
+theorem pushDep_nodes (rdeps : List Dep) (n : DepNode) (e : Nat) :
+    (pushDep rdeps ⟨n, e⟩).reverse.map (·.node) = pushNode (rdeps.reverse.map (·.node)) n := by
+  cases rdeps with
+  | nil => simp [pushDep, pushNode]
+  | cons l rest =>
+    have hlast : ((l :: rest).reverse.map (·.node)).getLast? = some l.node := by simp
+    by_cases h : l.node = n
+    · simp only [pushDep, h, if_true, pushNode, hlast]
+      simp [h]
+    · have : ¬ some l.node = some n := fun e => h (Option.some.inj e)
+      simp only [pushDep, h, if_false, pushNode, hlast, this]
+      simp
+
+theorem mem_pushNode {l : List DepNode} {n x : DepNode} : x ∈ pushNode l n ↔ x ∈ l ∨ x = n := by
+  unfold pushNode
+  split
+  · rename_i h
+    constructor
+    · exact Or.inl
+    · rintro (h1 | h1)
+      · exact h1
+      · rw [h1]; exact List.mem_of_getLast? h
+  · simp
+
+theorem mem_pushAll {ks l : List DepNode} {x : DepNode} : x ∈ pushAll l ks ↔ x ∈ l ∨ x ∈ ks := by
+  induction ks generalizing l with
+  | nil => simp [pushAll]
+  | cons k ks ih =>
+    have : pushAll l (k :: ks) = pushAll (pushNode l k) ks := rfl
+    rw [this, ih, mem_pushNode]
+    simp only [List.mem_cons]
+    constructor
+    · rintro ((h | h) | h)
+      · exact Or.inl h
+      · exact Or.inr (Or.inl h)
+      · exact Or.inr (Or.inr h)
+    · rintro (h | h | h)
+      · exact Or.inl (Or.inl h)
+      · exact Or.inl (Or.inr h)
+      · exact Or.inr h
+
+/-- an entry of the recorded list comes from an element of the trace before which everything was
+already recorded -/
+theorem pushAll_split : ∀ (ks : List DepNode) (D1 : List DepNode) (n : DepNode) (D2 : List DepNode),
+    pushAll [] ks = D1 ++ n :: D2 → ∃ K1 K2, ks = K1 ++ n :: K2 ∧ ∀ k, k ∈ K1 → k ∈ D1 := by
+  intro ks0
+  induction hlen : ks0.length generalizing ks0 with
+  | zero =>
+    intro D1 n D2 h
+    have : ks0 = [] := List.length_eq_zero_iff.1 hlen
+    subst this; simp [pushAll] at h
+  | succ m ihm =>
+    intro D1 n D2 h
+    rcases List.eq_nil_or_concat ks0 with hnil | ⟨ks, k, hks⟩
+    · subst hnil; simp at hlen
+    subst hks
+    have ih := ihm ks (by simp at hlen; exact hlen)
+    rw [List.concat_eq_append] at h ⊢
+    rw [pushAll_snoc] at h
+    unfold pushNode at h
+    split at h
+    · obtain ⟨K1, K2, hk, hK1⟩ := ih D1 n D2 h
+      exact ⟨K1, K2 ++ [k], by rw [hk]; simp, hK1⟩
+    · -- `k` was appended
+      rcases List.eq_nil_or_concat D2 with hD2 | ⟨D2', x, hD2⟩
+      · subst hD2
+        have h' : pushAll [] ks ++ [k] = D1 ++ [n] := h
+        have := List.append_inj' h' rfl
+        obtain ⟨e1, e2⟩ := this
+        cases e2
+        refine ⟨ks, [], rfl, ?_⟩
+        intro k' hk'
+        rw [← e1]; exact mem_pushAll.2 (Or.inr hk')
+      · subst hD2
+        have h' : pushAll [] ks ++ [k] = (D1 ++ n :: D2') ++ [x] := by rw [h]; simp
+        obtain ⟨e1, e2⟩ := List.append_inj' h' rfl
+        cases e2
+        obtain ⟨K1, K2, hk, hK1⟩ := ih D1 n D2' e1
+        exact ⟨K1, K2 ++ [k], by rw [hk]; simp, hK1⟩
+
 /-! ## edge facts -/
 
 /-- the recorded dependency that corresponds to a read -/
@@ -108,7 +203,8 @@ structure RevOk (P : Prog) (s : Storage) (n : NodeId) (r : Rev) : Prop where
   tu_stamp : ∀ d, d ∈ r.deps → r.tu ≤ d.stamp
   correct : r.tv = s.epoch → ∃ R, BigN P s.srcs s.maps n r.val R
   ghost : ∃ σx mx R, BigN P σx mx n r.val R ∧ (∀ rd, rd ∈ R → DepFor s r rd) ∧
-    (∀ d, d ∈ r.deps → ∃ rd, rd ∈ R ∧ rd.kind = d.node)
+    (∀ d, d ∈ r.deps → ∃ rd, rd ∈ R ∧ rd.kind = d.node) ∧
+    r.deps.map (·.node) = pushAll [] (R.map Read.kind)
 
 /-- the invariant; `B` are the nodes currently being brought up to date (exempt) -/
 structure INV (P : Prog) (s : Storage) (B : List NodeId) : Prop where
